@@ -116,5 +116,103 @@ example :
     (decrypt AEAD.toy 4 [7] (c.take 16)) = ([1, 2, 3, 4], .truncated) := by
   decide
 
+/-! ## Non-vacuity: for every theorem above, concrete values meeting all of its hypotheses at once -/
+
+/-- witness values: a 9-byte plaintext; its payload under the toy AEAD in chunks of 4 (three chunks: 16 + 16 + 13 bytes);
+    the same with one tag byte of the second chunk changed (offset 30: 1 ↦ 9); and cut after the second chunk -/
+def wPt : Bytes := [1, 2, 3, 4, 5, 6, 7, 8, 9]
+def wC : Bytes :=
+  [1, 2, 3, 4, 0, 0, 0, 0, 0, 0, 0, 0, 0, 0, 0, 0,  5, 6, 7, 8, 0, 0, 0, 0, 0, 0, 0, 0, 0, 0, 1, 0,  9, 0, 0, 0, 0, 0, 0, 0, 0, 0, 0, 2, 1]
+def wFlipped : Bytes :=
+  [1, 2, 3, 4, 0, 0, 0, 0, 0, 0, 0, 0, 0, 0, 0, 0,  5, 6, 7, 8, 0, 0, 0, 0, 0, 0, 0, 0, 0, 0, 9, 0,  9, 0, 0, 0, 0, 0, 0, 0, 0, 0, 0, 2, 1]
+def wCut : Bytes := wC.take 32
+
+/-- non-vacuity of `accepts_only_own_chunking`: toy AEAD, chunks of 4; the 45-byte string `wC` decrypts to the 9-byte
+    plaintext with a clean end -/
+theorem accepts_only_own_chunking_nonvacuous :
+    AEAD.toy.Correct ∧ 0 < 4 ∧ decrypt AEAD.toy 4 [7] wC = (wPt, .eof) :=
+  ⟨AEAD.toy_correct, by decide, by decide⟩
+
+example : wC = encrypt AEAD.toy 4 [7] wPt :=
+  let ⟨hA, hC, h⟩ := accepts_only_own_chunking_nonvacuous
+  accepts_only_own_chunking AEAD.toy hA 4 hC [7] wC wPt h
+
+/-- non-vacuity of `tamper_prefix`: the payload cut after its second chunk (a genuine change: `wCut ≠ wC`); the reader
+    opens the first two sealed pairs only, and releases 8 of the 9 bytes -/
+theorem tamper_prefix_nonvacuous :
+    0 < 4 ∧ wCut.length + 2 < 2 ^ 88 ∧ wPt.length + 2 < 2 ^ 88 ∧
+    (∀ x ∈ openedFrom AEAD.toy 4 [7] 0 wCut (wCut.length + 1), x ∈ sealedFrom 4 0 wPt (wPt.length + 1)) ∧
+    wCut ≠ encrypt AEAD.toy 4 [7] wPt ∧ decrypt AEAD.toy 4 [7] wCut = ([1, 2, 3, 4, 5, 6, 7, 8], .truncated) := by
+  decide
+
+/-- non-vacuity of `tampered_never_eof`: one tag byte of the second chunk changed; the reader opens the first sealed
+    pair only (no forgery), releases 4 bytes and fails to authenticate -/
+theorem tampered_never_eof_nonvacuous :
+    AEAD.toy.Correct ∧ 0 < 4 ∧ wFlipped ≠ encrypt AEAD.toy 4 [7] wPt ∧
+    wFlipped.length + 2 < 2 ^ 88 ∧ wPt.length + 2 < 2 ^ 88 ∧
+    (∀ x ∈ openedFrom AEAD.toy 4 [7] 0 wFlipped (wFlipped.length + 1), x ∈ sealedFrom 4 0 wPt (wPt.length + 1)) ∧
+    decrypt AEAD.toy 4 [7] wFlipped = ([1, 2, 3, 4], .authFail) :=
+  ⟨AEAD.toy_correct, by decide, by decide, by decide, by decide, by decide, by decide⟩
+
+/-- non-vacuity of `nonce_injective`: the hypotheses hold (only) for equal counters and flags -/
+theorem nonce_injective_nonvacuous : 5 < 2 ^ 88 ∧ 5 < 2 ^ 88 ∧ nonce 5 true = nonce 5 true :=
+  ⟨by decide, by decide, rfl⟩
+
+/-- non-vacuity of `reader_carries_over`: toy AEAD, chunks of 4, counter limit 2^88, the tampered 45-byte payload,
+    sixty reads of 3 bytes -/
+theorem reader_carries_over_nonvacuous :
+    0 < 4 + AEAD.toy.T ∧ wFlipped.length < 2 ^ 88 ∧ (∀ s ∈ List.replicate 60 3, 0 < s) ∧
+    (decrypt AEAD.toy 4 [7] wFlipped).1.length + wFlipped.length + 1 < (List.replicate 60 3).length := by
+  decide
+
+example : ∃ r', (Reader.new ⟨wFlipped, false⟩).drain AEAD.toy 4 (2 ^ 88) [7] (List.replicate 60 3) =
+    (r', [1, 2, 3, 4], some .authFail) :=
+  let ⟨hE, hL, hpos, hlong⟩ := reader_carries_over_nonvacuous
+  reader_carries_over AEAD.toy 4 (2 ^ 88) hE [7] wFlipped hL _ hpos hlong
+
+/-- a 16-byte file key, and the two stanzas an ssh-rsa and an X25519 recipient wrap it in under the toy primitives -/
+def wFk : Bytes := [1, 2, 3, 4, 5, 6, 7, 8, 9, 10, 11, 12, 13, 14, 15, 16]
+def wStanzas : List Format.Stanza :=
+  [{ type := tSshRsa, args := [sshTag Prims.toy [1, 2, 3]], body := wFk },
+   { type := tX25519, args := [B64.encRaw (List.replicate 32 0)], body := wFk ++ List.replicate 12 0 }]
+/-- a passphrase identity and an ssh-ed25519 identity: both answer "incorrect" on `wStanzas` -/
+def wPre : List Identity := [Identity.scrypt [112] 22, Identity.sshEd [1] [2]]
+def wId : Identity := Identity.x25519 (List.replicate 32 2)
+
+/-- (helper for the witnesses below) -/
+theorem wStanzas_wf : ∀ s ∈ wStanzas, s.WF := by
+  intro s hs
+  simp only [wStanzas, List.mem_cons, List.mem_nil_iff, or_false] at hs
+  rcases hs with rfl | rfl <;> exact ⟨by decide, by decide⟩
+
+/-- non-vacuity of `file_cut_in_nonce`: toy primitives, a two-stanza header, two identities answering "incorrect" before
+    the X25519 identity that opens the second stanza, and 5 bytes after the header -/
+theorem file_cut_in_nonce_nonvacuous :
+    Prims.toy.Correct ∧ (∀ s ∈ wStanzas, s.WF) ∧ wFk ≠ [] ∧
+    (∀ i ∈ wPre, i.unwrap Prims.toy wStanzas = .incorrect) ∧ wId.unwrap Prims.toy wStanzas = .key wFk ∧
+    ([1, 2, 3, 4, 5] : Bytes).length < streamNonceSize :=
+  ⟨Prims.toy_correct, wStanzas_wf, by decide, by decide, by decide, by decide⟩
+
+example : decryptFile Prims.toy 4 (wPre ++ wId :: []) (headerBytes Prims.toy wFk wStanzas ++ [1, 2, 3, 4, 5]) = .error .nonce :=
+  let ⟨hP, hwf, hfk, hpre, hid, hshort⟩ := file_cut_in_nonce_nonvacuous
+  file_cut_in_nonce Prims.toy hP wFk wStanzas _ hwf hfk wPre [] wId hpre hid hshort 4
+
+/-- non-vacuity of `file_payload_tamper`: same header and identities, a 16-byte nonce, the 9-byte plaintext in chunks
+    of 4, and its payload with one tag byte of the second chunk changed (`wFlipped`) -/
+theorem file_payload_tamper_nonvacuous :
+    Prims.toy.Correct ∧ 0 < 4 ∧ (∀ s ∈ wStanzas, s.WF) ∧ wFk ≠ [] ∧ (List.replicate 16 (8 : UInt8)).length = streamNonceSize ∧
+    (∀ i ∈ wPre, i.unwrap Prims.toy wStanzas = .incorrect) ∧ wId.unwrap Prims.toy wStanzas = .key wFk ∧
+    wFlipped.length + 2 < 2 ^ 88 ∧ wPt.length + 2 < 2 ^ 88 ∧
+    (∀ x ∈ openedFrom Prims.toy.aead 4 (streamKey Prims.toy wFk (List.replicate 16 8)) 0 wFlipped (wFlipped.length + 1),
+      x ∈ sealedFrom 4 0 wPt (wPt.length + 1)) ∧
+    wFlipped ≠ Stream.encrypt Prims.toy.aead 4 (streamKey Prims.toy wFk (List.replicate 16 8)) wPt :=
+  ⟨Prims.toy_correct, by decide, wStanzas_wf, by decide, by decide, by decide, by decide, by decide, by decide, by decide, by decide⟩
+
+example : ∃ out o, decryptFile Prims.toy 4 (wPre ++ wId :: [])
+      (headerBytes Prims.toy wFk wStanzas ++ (List.replicate 16 8 ++ wFlipped)) = .ok (out, o) ∧ out <+: wPt ∧ o ≠ .eof :=
+  let ⟨hP, hC, hwf, hfk, hn, hpre, hid, hlen, hlenp, hno, hne⟩ := file_payload_tamper_nonvacuous
+  let ⟨out, o, h, hp, _, he⟩ := file_payload_tamper Prims.toy hP 4 hC wFk _ wPt wFlipped wStanzas hwf hfk hn wPre [] wId hpre hid hlen hlenp hno
+  ⟨out, o, h, hp, he hne⟩
+
 end Props.C02
 end AgeModel
